@@ -1331,7 +1331,14 @@ impl<'a> Gen<'a> {
             1 => self.gen_bucket_branch(3, 0, true),
             2 => {
                 let f = *self.rng.pick(&[Fd::Rank, Fd::Fb, Fd::Cat]);
-                self.gen_terms_on(f, 0, false)
+                let (name, mut t) = self.gen_terms_on(f, 0, false);
+                // every bucket is returned: no arbitrary choice among ties at the `size` cut
+                let all = self.corpus.distinct(f) as u32 + 5;
+                if let Agg::Terms { size, segment_size, .. } = &mut t {
+                    *size = Some(all);
+                    *segment_size = Some(all);
+                }
+                (name, t)
             }
             3 => {
                 let f = *self.rng.pick(&[Fd::Rank, Fd::Id, Fd::Fi]);
